@@ -19,7 +19,10 @@ package caching
 
 //@ func (*TaintCache).IsTainted(tc, ctx, targetLabel) (r, err)
 //@   pure
+//@   ensures [sound] err == nil ==> (r <==> has(bstored, "taint/" + "//" + targetLabel.Package + ":" + targetLabel.Name))
 //@   ghostset lastIsTainted := r
+//@   ghostset lastTaintErr := err != nil
+//@   ghostset taintLookups := taintLookups + 1
 
 //@ func (*TaintCache).Clear(tc, ctx, targetLabel) (err)
 //@   pure
